@@ -22,7 +22,8 @@ class NativeBounded:
             out["error"] = {"type": "crash", "msg": "bounded stand-in failed to run: " + str(nat.get("desc"))[:500]}
             return out
         out["bounded"] = {"function": self.what, "stand_in": f"{self.module}.{self.func}", "bound": nat.get("bound"),
-                          "cases": nat.get("cases"), "failures": len(nat.get("failures", [])),
+                          "cases": nat.get("cases"), "nontrivial": nat.get("nontrivial"), "samples": nat.get("samples"),
+                          "failures": len(nat.get("failures", [])),
                           "secs": round(time.time() - t0, 2), "label": "bounded (not counted as proved)"}
         for i, f in enumerate(nat.get("failures", [])[:3]):
             out["results"].append({"oid": f"bounded:{self.func}#{i}", "kind": "bounded", "status": "refuted", "solver": "native",
